@@ -1167,6 +1167,11 @@ def C11(tier, seed):
             root = os.path.join(shm, f"r{ix}")
             a = dict(b)
             a.update({"sc": sc, "points": False, "keep": True, "tag": {"k": k, "base": b["sc"]}})
+            # conform mode with kills (TraceFlwF.tla): histories inside the domain of FlwF.tla whose file names and rotation
+            # criterion do not depend on creation times (the harness' virtual birth times do not survive the kill)
+            kconf = (C.conformable_faults(a) and b["cfg"].get("naming") in ("Num", "NumD") and not b["cfg"].get("age")
+                     and b["cfg"].get("mode", "direct") == "direct")
+            a["conf"] = a["fxrec"] = kconf
             sa, ta = os.path.join(tdir, f"a{ix}.scen"), os.path.join(tdir, f"a{ix}.trace")
             note = os.path.join(tdir, f"a{ix}.note")
             open(sa, "w").write(json.dumps(a) + "\n")
@@ -1184,8 +1189,15 @@ def C11(tier, seed):
             at = open(note).read().strip() if os.path.exists(note) else ""
             bsteps = [{"op": "Start", "append": (k % 2 == 0)}, {"op": "Log", "len": 12}, {"op": "Log", "len": 12},
                       {"op": "Trigger"}, {"op": "Log", "len": 12}, {"op": "Stop"}]
-            bsc = {"sc": sc, "cfg": b["cfg"], "t0": b.get("t0", 1000) + 5, "steps": bsteps, "resume": True, "id0": last + 1,
-                   "n0": len(evs), "crashed_at": at.split(" ")[0], "origin": b.get("origin", "")}
+            # the call that was running, and the number - within that call - of the effect it was killed in front of
+            done_fx = sum(len(e.get("fx", [])) for e in evs)
+            nsteps = sum(1 for e in evs if e.get("ev") != "Begin" and not e.get("inner"))
+            infl = a["steps"][nsteps] if nsteps < len(a["steps"]) else {"op": "?"}
+            # (the killed log call takes its record number with it: the record may be in a file)
+            skip = 0 if (kconf and infl.get("op") != "Log") else 1
+            bsc = {"sc": sc, "cfg": b["cfg"], "t0": b.get("t0", 1000) + 5, "steps": bsteps, "resume": True, "id0": last + skip,
+                   "n0": len(evs), "crashed_at": at.split(" ")[0], "origin": b.get("origin", ""), "fxrec": kconf,
+                   "inflight": {"op": infl.get("op", "?"), "len": infl.get("len", 0)}, "j": k - done_fx}
             sb, tb = os.path.join(tdir, f"b{ix}.scen"), os.path.join(tdir, f"b{ix}.trace")
             open(sb, "w").write(json.dumps(bsc) + "\n")
             p2 = subprocess.run([C.FLV, "flw", sb, tb, "--root", root], stdout=subprocess.PIPE, stderr=subprocess.PIPE,
@@ -1234,7 +1246,21 @@ def C11(tier, seed):
         for v in viols[:10]:
             C.log(f"VIOLATION property={pid} replay={v['replay']}")
             C.log(f"   predicate {v['pred']} failed at scenario {v['sc']} event {v['n']}; facts {v['facts']}")
+        # conform mode with kills: the recorded history up to the kill, the kill itself (FlwCrash.tla: CrashInWrite /
+        # CrashInTrigger / CrashOther at the recorded effect number) and the restarted logger's calls must be a behaviour
+        # of the specification with equal projected directory contents at every event
+        try:
+            cf = C.conform(traces, wd, module="TraceFlwFMC.tla", cfg="TraceFlwF.cfg")
+        except C.ToolError as ex:      # (conform mode gives no verdict: the monitors above decide)
+            C.log(f"NOTE: conform mode with kills did not complete: {ex}")
+            cf = {"scenarios": 0, "events": 0, "drifts": []}
+        C.log(f"[C11] conform mode with kills: {cf['scenarios']} kill+restart runs / {cf['events']} events explained step by step "
+              f"by FlwCrash.tla (TraceFlwF.tla), {len(cf['drifts'])} drifts")
+        for d in cf["drifts"][:10]:
+            C.log(f"NOTE: conform mode: scenario {d[0]} event {d[1]} ({d[2]}) is not explained by the specification")
         cov = {"evaluations": len(results), "distinct_nontrivial": len({(id(b), k) for (b, k) in jobs}),
+               "conform_mode": {"module": "TraceFlwF.tla (FlwCrash.tla)", "scenarios": cf["scenarios"], "events": cf["events"],
+                                "drifts": [list(d) for d in cf["drifts"][:20]]},
                "rule": "histories = longest maximal behaviours of the bounded Flw model (cleanup/compression, restarts, forced "
                        "rotations, symlink) + random; a recording run counts the file-system effects of each history; then "
                        "one child process per (history, effect index k) aborts immediately before effect k (each completed "
